@@ -1348,6 +1348,12 @@ def sequence_reader(an, rep):
             continue
         ret = strip_refs(p.outcome[1])
         state = ret[3] if ret[0] == "agg" else "?"
+        if state not in ("KnownSize", "UnknownSize", "InputEndedUnexpectedly", "InvalidLength"):
+            # the state may be a field of the iterator (struct { context, state, .. }) instead of the iterator itself
+            inner = [x[3] for x in mir.walk_expr(ret) if x[0] == "agg" and x[1] == "adt" and
+                     x[3] in ("KnownSize", "UnknownSize", "InputEndedUnexpectedly", "InvalidLength")]
+            if len(set(inner)) == 1:
+                state = inner[0]
         ok_read = None
         minus1 = None
         conv = None
